@@ -116,13 +116,20 @@ def run_scenario(cfg, plan=None, extra_after=None, max_steps=400000):
         t0 = CLOCK.now
         if cfg.service == "cpt":
             req = client.cpt_request(2, cfg.token, cfg.req_size)
+        elif cfg.service == "unencodable":
+            # a request the application forgot a required parameter of: it cannot be put on the wire at all
+            from bacpypes.apdu import ReadPropertyRequest
+            from bacpypes.pdu import Address as _A
+            req = ReadPropertyRequest(propertyIdentifier="presentValue", destination=_A(2))
         else:
             req = client.wp_request(2, cfg.token)
         res.submit_error = None
+        res.first_refused = False
         try:
             res.iocb = client.send(req, cfg.token)
         except Exception as err:
             res.submit_error = err
+            res.first_refused = True
         res.invoke = getattr(req, "apduInvokeID", None)
         res.t0 = t0
         res.extra_tokens = []
@@ -205,12 +212,17 @@ def check_c04(res, report):
         report("transaction-never-quiesces", {"error": res.budget_exceeded})
         return
     outs = outcomes_of(res)
+    expected = 1 + len(getattr(res, "extra_tokens", []))
     if res.submit_error is not None:
         # a refusal at submission is itself the (single) outcome told to the caller
-        if outs:
+        mine = [o_ for o_ in outs if o_.get("token") == cfg.token] if cfg.path == "iocb" else outs
+        if getattr(res, "first_refused", False) and getattr(res, "extra_tokens", []) and cfg.path == "direct":
+            expected -= 1           # the other requests of the scenario were accepted and have their own outcomes
+        elif mine:
             report("submission-refused-and-outcome-delivered", {"error": repr(res.submit_error)})
-        return
-    expected = 1 + len(getattr(res, "extra_tokens", []))
+            return
+        else:
+            return
     if len(outs) < expected:
         key = "no-outcome-delivered" if expected == 1 else "queued-request-without-outcome" if cfg.path == "iocb" else "concurrent-request-without-outcome"
         report(key, {"frames": len(res.lan.frames), "outcomes": len(outs), "requests": expected, "swallowed": CLOCK.swallowed.records[:2],
